@@ -140,7 +140,9 @@ class C14(Check):
                 raise Violation("digest-mismatch:" + name, f"fingerprint({text!r:.80}, {name!r}) = {got!r}, hashlib gives {want!r}")
         for name in EXTRA_ADVERTISED:
             # a further name the library advertises: a Java spelling must be that digest; anything else cannot be decided
-            real = JAVA_STANDARD.get(name)
+            real = JAVA_STANDARD.get(name, name if name in hashlib.algorithms_available else None)
+            if real is not None and real.startswith("shake_"):
+                continue  # variable length: outside the statement
             if real is None or real not in hashlib.algorithms_available:
                 labels.add("advertised-name-without-reference")
                 continue
